@@ -108,6 +108,47 @@ def endService (k : Nat × Name) : Res St → Res St
   | .err => .err
   | .fuel => .fuel
 
+/-- `scalarKey` (compile/constant_value.go) on a linked value in state `σ`: a reference stands for
+what `Target.Value` currently is — the linked value once the constant is complete, its source
+expression before — through at most 64 references. -/
+def scalarKey (p : GProg) (σ : St) : Nat → CV → Option SKey
+  | _, .bool b => some (.b b)
+  | _, .int n => some (.i n)
+  | _, .dbl bits => dblKey bits
+  | _, .str s => some (.s s)
+  | _, .eref _ _ _ val => some (.i val)
+  | 0, .cref _ _ => none
+  | f + 1, .cref cm cn =>
+    match lookupConst p cm cn with
+    | none => none
+    | some c =>
+      match alookup (cm, cn) σ.cval with
+      | some v => scalarKey p σ f v
+      | none => scalarKey p σ f c.val
+  | _, _ => none
+
+/-- `duplicateScalar` on the linked items of a set constant / keys of a map constant -/
+def dupScalar (p : GProg) (σ : St) (vs : List CV) : Bool := dupKeys (vs.map (scalarKey p σ 64)) []
+
+/-- the result of `ConstantSet.Link` / `ConstantMap.Link` after the items are linked: an error if
+a scalar is given twice -/
+def guardDup (p : GProg) (σ : St) (keys : List CV) (v : CV) : Res (St × CV) :=
+  if dupScalar p σ keys then .err else .ok (σ, v)
+
+theorem guardDup_ok {p : GProg} {σ : St} {keys : List CV} {v : CV} {x : St × CV}
+    (h : guardDup p σ keys v = .ok x) : x = (σ, v) := by
+  unfold guardDup at h
+  split at h
+  · cases h
+  · cases h; rfl
+
+theorem guardDup_cases (p : GProg) (σ : St) (keys : List CV) (v : CV) :
+    guardDup p σ keys v = .err ∨ guardDup p σ keys v = .ok (σ, v) := by
+  unfold guardDup
+  split
+  · exact Or.inl rfl
+  · exact Or.inr rfl
+
 /-! ### the linker -/
 
 mutual
@@ -245,7 +286,7 @@ def linkVal : Nat → GProg → Nat → CV → LType → St → Res (St × CV)
           | .fuel => .fuel
       | .map kt vt =>
         match linkPairs f p m kvs kt vt σ with
-        | .ok (σ1, kvs') => .ok (σ1, .map kvs')
+        | .ok (σ1, kvs') => guardDup p σ1 (kvs'.map (·.1)) (.map kvs')
         | .err => .err
         | .fuel => .fuel
       | _ => .err
@@ -262,7 +303,7 @@ def linkVal : Nat → GProg → Nat → CV → LType → St → Res (St × CV)
       match rootKind p (rootIn p σ t) with
       | .set e =>
         match linkVals f p m xs e σ with
-        | .ok (σ1, xs') => .ok (σ1, .set xs')
+        | .ok (σ1, xs') => guardDup p σ1 xs' (.set xs')
         | .err => .err
         | .fuel => .fuel
       | .list e =>
@@ -275,7 +316,7 @@ def linkVal : Nat → GProg → Nat → CV → LType → St → Res (St × CV)
       match rootKind p (rootIn p σ t) with
       | .set e =>
         match linkVals f p m xs e σ with
-        | .ok (σ1, xs') => .ok (σ1, .set xs')
+        | .ok (σ1, xs') => guardDup p σ1 xs' (.set xs')
         | .err => .err
         | .fuel => .fuel
       | _ => .err
